@@ -190,19 +190,7 @@ def make_request_body_multipart(typed):
     return q
 
 
-class FaultStream(stubs.SymStream):
-    """SymStream whose k-th read() raises once (a socket timeout); k = 0: never"""
-    def __init__(self, avail, frags, data, fail_at):
-        stubs.SymStream.__init__(self, avail, frags, data=data)
-        self.fail_at, self.calls = fail_at, 0
-
-    def read(self, n=-1):
-        self.calls += 1
-        if self.calls == self.fail_at:
-            self.asked.append(n)
-            self.given.append(0)
-            raise OSError("timed out")
-        return stubs.SymStream.read(self, n)
+FaultStream = stubs.FaultStream
 
 
 def make_wsgi(a):
